@@ -24,6 +24,18 @@ type specState struct {
 	ranTest map[string]int // pos -> number of test invocations
 	wantLog bool
 	ctxStr  string // expected rendering of ctx.Get for the probe keys
+	quirks  map[string]bool // known-finding switches (DESIGN §3.4); fired records which ones mattered
+	fired   map[string]bool
+}
+
+// specSrc is a record source as a front end presents it: map-like (Go map,
+// decoded JSON) or flat (form, query, environment: one namespace for all
+// nesting levels), with the struct tag that names keys.
+type specSrc struct {
+	flat bool
+	tag  string
+	get  func(key string) any // flat sources
+	m    any                  // map-like sources: the Go value
 }
 
 func (st *specState) add(path, code, dtype string) {
@@ -70,6 +82,9 @@ func (st *specState) logCall(who string, arg reflect.Value, isPtr bool) {
 func parseAbsentSpec(data any) bool {
 	if data == nil {
 		return true
+	}
+	if sp, ok := data.(*specSrc); ok {
+		return !sp.flat && parseAbsentSpec(sp.m)
 	}
 	if s, ok := data.(string); ok {
 		return strings.TrimSpace(s) == ""
@@ -357,10 +372,27 @@ func fieldKeyFor(f *Field, sourceTag string) string {
 
 func (st *specState) structParse(n *Node, data any, dest reflect.Value, path string) {
 	defer st.posts(n, dest, path, true)
-	lookup, ok := specProvider(data)
-	if !ok {
-		st.add(path, "coerce", "struct")
-		return
+	var lookup func(key string) any
+	var src *specSrc
+	if sp, ok := data.(*specSrc); ok {
+		src = sp
+		if sp.flat {
+			lookup = sp.get
+		} else {
+			l, ok := specProvider(sp.m)
+			if !ok {
+				st.add(path, "coerce", "struct")
+				return
+			}
+			lookup = l
+		}
+	} else {
+		l, ok := specProvider(data)
+		if !ok {
+			st.add(path, "coerce", "struct")
+			return
+		}
+		lookup = l
 	}
 	fs := sortedFields(n)
 	var order []int
@@ -369,12 +401,80 @@ func (st *specState) structParse(n *Node, data any, dest reflect.Value, path str
 	} else {
 		order = []int{0}[:len(fs)]
 	}
+	tag := ""
+	if src != nil {
+		tag = src.tag
+		if !src.flat && tag != "" && st.quirks["empty-doc-tag"] {
+			// as is: an empty JSON object has no provider (zjson.Decode returns nil), so its source tag is unknown
+			if mv := reflect.ValueOf(src.m); mv.Kind() == reflect.Map && mv.Len() == 0 {
+				if nestedUsesSourceTag(n, tag) {
+					st.fire("empty-doc-tag")
+				}
+				tag = ""
+				src = &specSrc{tag: "", m: src.m}
+			}
+		}
+	}
 	for _, idx := range order {
 		f := fs[idx]
-		key := fieldKeyFor(f, "")
-		st.specParse(f.N, lookup(key), dest.FieldByName(goFieldName(f.Key)), joinPath(path, key))
+		key := fieldKeyFor(f, tag)
+		var child any = lookup(key)
+		if src != nil && isStructLike(f.N) {
+			switch {
+			case src.flat:
+				// documented: flat sources resolve nested fields against the same source
+				if st.quirks["nested-flat"] {
+					st.fire("nested-flat") // as is: the nested schema receives the looked-up scalar
+				} else {
+					child = src
+				}
+			default:
+				// documented: the source tag names keys at every depth
+				{
+					ctag := src.tag
+					if st.quirks["nested-tag"] {
+						if nestedUsesSourceTag(f.N, src.tag) {
+							st.fire("nested-tag") // as is: nested providers are rebuilt without the source tag
+						}
+						ctag = ""
+					}
+					child = &specSrc{tag: ctag, m: child}
+				}
+			}
+		}
+		st.specParse(f.N, child, dest.FieldByName(goFieldName(f.Key)), joinPath(path, key))
 	}
 	st.runTests(n, dest, path)
+}
+
+func (st *specState) fire(q string) {
+	if st.fired == nil {
+		st.fired = map[string]bool{}
+	}
+	st.fired[q] = true
+}
+
+func isStructLike(n *Node) bool {
+	for n.Kind == KPtr {
+		n = n.Elem
+	}
+	return n.Kind == KStruct
+}
+
+// nestedUsesSourceTag: does any field below n carry the source tag (so that dropping it changes a key)?
+func nestedUsesSourceTag(n *Node, tag string) bool {
+	for n.Kind == KPtr {
+		n = n.Elem
+	}
+	for _, f := range n.Fields {
+		if _, ok := reflect.StructTag(f.Tag).Lookup(tag); ok {
+			return true
+		}
+		if isStructLike(f.N) && nestedUsesSourceTag(f.N, tag) {
+			return true
+		}
+	}
+	return false
 }
 
 // specProvider: which Go values can stand for a record (nil: every field absent).
